@@ -18,6 +18,10 @@
 //!      `ZCurve { part_count, order }.partition`; per-point region codes and the reordered
 //!      permutation from the hooks.      out: `ok | <codes along the permutation> | <sorted code:id pairs>`
 //!      (both observables are invariant under the unstable sort's order of equal codes).
+//! `hilg <dim> <pool> <order> <parts> <n> <family> <layout> <wmode> <seed> <reuse> [=> <idx…> <w…> <m> <pos…>]`
+//! `zcg  <dim> <pool> <order> <parts> <n> <family> <layout> <seed> <reuse> [=> <code…>]`
+//!      the same two algorithms on points (and integer weights) GENERATED from the descriptor (see
+//!      `gen_family`, `apply_layout`, `gen_int_weights`): the large-n / corner / reuse stream. Same outs.
 //! other outs: `ok-empty`, `err invalid-order`, `panic file:line: msg`, `hang`.
 
 use crate::common::*;
@@ -59,6 +63,13 @@ fn exact_weights(ws: &[f64]) -> bool {
         sum = sum.saturating_add(w as u64);
     }
     sum < (1u64 << 53)
+}
+
+/// The model re-runs the quantile refinement when it is reproducible (`exact`) and cheap enough
+/// (same rule in the Lean driver: `ownRefinement`); otherwise it takes the hook's positions.
+fn own_refinement(exact: bool, _n: usize, _parts: usize) -> bool {
+    // measured: the compiled model refines 70 001 points into 70 001 parts in 0.3 s, so no size gate
+    exact
 }
 
 struct Toks<'a>(std::str::SplitWhitespace<'a>);
@@ -212,7 +223,7 @@ fn run_wq(ctx: &mut Ctx, t: &mut Toks) -> Option<()> {
             Ok(p) | Err(p) => p,
         })
         .collect();
-    let src = if exact_weights(&ws) { "m" } else { "h" };
+    let src = if own_refinement(exact_weights(&ws), n, parts) { "m" } else { "h" };
     ctx.count(&format!("wq:src:{}", src));
     let mut v = hilbert_oracle(&idx, &ids, parts);
     if v.is_none() && !pos.windows(2).all(|w| w[0] <= w[1]) {
@@ -232,6 +243,19 @@ struct HilRan {
     ids: Vec<usize>,
     idx: Vec<u64>,
     pos: Vec<u64>,
+}
+
+/// How the call under test is preceded (object / buffer reuse): 0 = fresh algorithm value and
+/// fresh buffer; 1 = the same algorithm value and the same id buffer were first used on a
+/// different input (the points in reverse order); 2 = the same value and buffer were first used
+/// with half as many parts, then `part_count` is raised. The model knows no history: any
+/// dependence on it is a correspondence break.
+fn reuse_name(reuse: usize) -> &'static str {
+    match reuse {
+        0 => "fresh",
+        1 => "same-value-other-input",
+        _ => "same-buffer-more-parts",
+    }
 }
 
 fn run_hil(ctx: &mut Ctx, t: &mut Toks) -> Option<()> {
@@ -261,6 +285,24 @@ fn run_hil(ctx: &mut Ctx, t: &mut Toks) -> Option<()> {
     .split_whitespace()
     .collect::<Vec<_>>()
     .join(" ");
+    hil_exec(ctx, base, dim, pool, order, parts, n, coords, ws, 0, false);
+    Some(())
+}
+
+#[allow(clippy::too_many_arguments)]
+fn hil_exec(
+    ctx: &mut Ctx,
+    base: String,
+    dim: usize,
+    pool: usize,
+    order: u64,
+    parts: usize,
+    n: usize,
+    coords: Vec<f64>,
+    ws: Vec<f64>,
+    reuse: usize,
+    generated: bool,
+) {
     let max_order = if dim == 2 { 32 } else { 21 };
     let (coords2, ws2) = (coords.clone(), ws.clone());
     let r = catch_timeout(WATCHDOG_S, move || {
@@ -269,11 +311,27 @@ fn run_hil(ctx: &mut Ctx, t: &mut Toks) -> Option<()> {
             let mut alg = coupe::HilbertCurve { part_count: parts, order: order as u32 };
             let (res, idx) = if dim == 2 {
                 let p = pts2(&coords2);
+                if reuse == 1 {
+                    let q: Vec<Point2D> = p.iter().rev().copied().collect();
+                    let _ = alg.partition(&mut ids, (&q[..], ws2.clone()));
+                } else if reuse >= 2 {
+                    alg.part_count = (parts / 2).max(1);
+                    let _ = alg.partition(&mut ids, (&p[..], ws2.clone()));
+                    alg.part_count = parts;
+                }
                 let r = alg.partition(&mut ids, (&p[..], ws2.clone())).map_err(|e| format!("{:?}", e));
                 let idx = if r.is_ok() && n > 0 { coupe::verif::hilbert::indices_2d(&p, order as usize) } else { vec![] };
                 (r, idx)
             } else {
                 let p = pts3(&coords2);
+                if reuse == 1 {
+                    let q: Vec<Point3D> = p.iter().rev().copied().collect();
+                    let _ = alg.partition(&mut ids, (&q[..], ws2.clone()));
+                } else if reuse >= 2 {
+                    alg.part_count = (parts / 2).max(1);
+                    let _ = alg.partition(&mut ids, (&p[..], ws2.clone()));
+                    alg.part_count = parts;
+                }
                 let r = alg.partition(&mut ids, (&p[..], ws2.clone())).map_err(|e| format!("{:?}", e));
                 let idx = if r.is_ok() && n > 0 { coupe::verif::hilbert::indices_3d(&p, order as usize) } else { vec![] };
                 (r, idx)
@@ -290,7 +348,7 @@ fn run_hil(ctx: &mut Ctx, t: &mut Toks) -> Option<()> {
         let v = if parts == 0 { None } else { v };
         ctx.count("hil:malformed-or-failed");
         finish(ctx, base, out, false, v);
-        return Some(());
+        return;
     }
     let Caught::Ok(ran) = r else { unreachable!() };
     match ran.res {
@@ -316,15 +374,22 @@ fn run_hil(ctx: &mut Ctx, t: &mut Toks) -> Option<()> {
             if v.is_none() {
                 v = hilbert_oracle(&ran.idx, &ran.ids, parts);
             }
-            let src = if exact_weights(&ws) { "m" } else { "h" };
+            let src = if own_refinement(exact_weights(&ws), n, parts) { "m" } else { "h" };
             ctx.count(&format!("hil:src:{}", src));
             ctx.count(&format!("hil:dim{}:pool{}", dim, pool));
             let out = format!("ok {} | {} | {}", src, list(&ran.pos), list(&ran.ids));
-            let op = format!("{} => {} {} {}", base, join(&ran.idx), ran.pos.len(), join(&ran.pos)).trim_end().to_string();
+            let op = if generated {
+                // generated weights are integers: written in decimal for the model
+                let wi: Vec<u64> = ws.iter().map(|w| *w as u64).collect();
+                format!("{} => {} {} {} {}", base, join(&ran.idx), join(&wi), ran.pos.len(), join(&ran.pos))
+            } else {
+                format!("{} => {} {} {}", base, join(&ran.idx), ran.pos.len(), join(&ran.pos))
+            }
+            .trim_end()
+            .to_string();
             finish(ctx, op, out, hil_nontrivial(&ran.idx, parts), v);
         }
     }
-    Some(())
 }
 
 // ------------------------------------------------------------------ ZCurve
@@ -423,6 +488,12 @@ fn run_zc(ctx: &mut Ctx, t: &mut Toks) -> Option<()> {
     .split_whitespace()
     .collect::<Vec<_>>()
     .join(" ");
+    zc_exec(ctx, base, dim, pool, order, parts, n, coords, 0);
+    Some(())
+}
+
+#[allow(clippy::too_many_arguments)]
+fn zc_exec(ctx: &mut Ctx, base: String, dim: usize, pool: usize, order: u64, parts: usize, n: usize, coords: Vec<f64>, reuse: usize) {
     let coords2 = coords.clone();
     let r = catch_timeout(WATCHDOG_S, move || {
         with_pool(pool, || {
@@ -430,12 +501,28 @@ fn run_zc(ctx: &mut Ctx, t: &mut Toks) -> Option<()> {
             let mut alg = coupe::ZCurve { part_count: parts, order: order as u32 };
             if dim == 2 {
                 let p = pts2(&coords2);
+                if reuse == 1 {
+                    let q: Vec<Point2D> = p.iter().rev().copied().collect();
+                    alg.partition(&mut ids, &q[..]).unwrap();
+                } else if reuse >= 2 {
+                    alg.part_count = (parts / 2).max(1);
+                    alg.partition(&mut ids, &p[..]).unwrap();
+                    alg.part_count = parts;
+                }
                 alg.partition(&mut ids, &p[..]).unwrap();
                 let perm = coupe::verif::z_curve::permutation::<2>(&p, order as u32);
                 let codes = coupe::verif::z_curve::codes::<2>(&p, order as u32);
                 ZcRan { ids, perm, codes }
             } else {
                 let p = pts3(&coords2);
+                if reuse == 1 {
+                    let q: Vec<Point3D> = p.iter().rev().copied().collect();
+                    alg.partition(&mut ids, &q[..]).unwrap();
+                } else if reuse >= 2 {
+                    alg.part_count = (parts / 2).max(1);
+                    alg.partition(&mut ids, &p[..]).unwrap();
+                    alg.part_count = parts;
+                }
                 alg.partition(&mut ids, &p[..]).unwrap();
                 let perm = coupe::verif::z_curve::permutation::<3>(&p, order as u32);
                 let codes = coupe::verif::z_curve::codes::<3>(&p, order as u32);
@@ -448,7 +535,7 @@ fn run_zc(ctx: &mut Ctx, t: &mut Toks) -> Option<()> {
         let v = if parts == 0 || order > 42 { None } else { v };
         ctx.count("zc:malformed-or-failed");
         finish(ctx, base, out, false, v);
-        return Some(());
+        return;
     }
     let Caught::Ok(ran) = r else { unreachable!() };
     let v = zcurve_oracle(&ran.codes, &ran.perm, &ran.ids, parts);
@@ -467,6 +554,211 @@ fn run_zc(ctx: &mut Ctx, t: &mut Toks) -> Option<()> {
     ctx.count(if parts > n { "zc:parts>n" } else if parts == n { "zc:parts=n" } else { "zc:parts<n" });
     ctx.count(if distinct.len() == n { "zc:codes-all-distinct" } else { "zc:codes-with-ties" });
     finish(ctx, op, out, n >= 2 && parts >= 2 && distinct.len() >= 2, v);
+}
+
+// ------------------------------------------------------------------ generated (large / corner) inputs
+
+/// Point families of the large-n / corner stream, generated from a descriptor so that the op line
+/// stays short. Families 0 and 1 are point-symmetric integer sets (`p` and `-p` both present,
+/// |coordinate| <= 8191): the centroid is exactly 0 and every inertia sum is an exact integer
+/// below 2^53 for any n up to 2^25, so the bounding box does not depend on rayon's reduction
+/// tree and the three calls (partition, index hook, code hook) see the same box on any pool.
+///   0 sym-random  random integer points with their mirror images
+///   1 grid-rows   a grid numbered row by row, rows of 4096 (even seed) or 8192 (odd seed) nodes,
+///                 completed by symmetric random pairs (and the origin) up to n points
+///   2 uniform     53-bit uniform floats (only used on a 1-thread pool)
+/// Layouts (order in which the points are handed to the algorithm):
+///   0 as generated (grid: row by row)   1 / 2 ascending x inside runs of 4096 / 8192 points
+///   3 shuffled   4 globally ascending x  5 sorted along the curve (by the hook's index / cell)
+///   6 sorted along the curve inside runs of 4096 points
+fn gen_family(dim: usize, n: usize, family: usize, seed: u64) -> Vec<f64> {
+    let mut rng = Rng::new(seed ^ 0xC09);
+    let mut c: Vec<f64> = Vec::with_capacity(n * dim);
+    match family {
+        2 => {
+            for _ in 0..n * dim {
+                c.push((rng.below(1 << 53) as f64) / (1u64 << 53) as f64);
+            }
+        }
+        _ => {
+            let mut half: Vec<Vec<i64>> = Vec::with_capacity(n / 2);
+            if family == 1 {
+                let w = if seed % 2 == 0 { 4096usize } else { 8192 };
+                let h = n / w;
+                // the first h*w/2 nodes of the grid in row-major order; the mirror image of node
+                // t is node h*w-1-t, so first half + reversed mirrored half = the whole grid
+                for t in 0..(h * w) / 2 {
+                    let (i, j) = ((t % w) as i64, (t / w) as i64);
+                    let mut q = vec![2 * i - (w as i64 - 1), 2 * j - (h as i64 - 1)];
+                    if dim == 3 {
+                        q.push(0);
+                    }
+                    half.push(q);
+                }
+            }
+            let grid_half = half.len();
+            while half.len() < n / 2 {
+                let q: Vec<i64> = (0..dim).map(|_| rng.range(-1024, 1024)).collect();
+                half.push(q);
+            }
+            // grid part first (row by row), then its mirror in reverse (continues the row order),
+            // then the extra pairs, then the origin
+            for q in &half[..grid_half] {
+                c.extend(q.iter().map(|x| *x as f64));
+            }
+            for q in half[..grid_half].iter().rev() {
+                c.extend(q.iter().map(|x| -*x as f64));
+            }
+            for q in &half[grid_half..] {
+                c.extend(q.iter().map(|x| *x as f64));
+                c.extend(q.iter().map(|x| -*x as f64));
+            }
+            if n % 2 == 1 {
+                c.extend(std::iter::repeat(0.0).take(dim));
+            }
+        }
+    }
+    c
+}
+
+fn apply_layout(dim: usize, coords: Vec<f64>, layout: usize, seed: u64, curve_key: impl Fn(&[f64]) -> Option<Vec<Vec<u8>>>) -> Vec<f64> {
+    let n = coords.len() / dim;
+    let mut order: Vec<usize> = (0..n).collect();
+    let by_x = |a: &usize, b: &usize| coords[a * dim].partial_cmp(&coords[b * dim]).unwrap().then(a.cmp(b));
+    match layout {
+        1 | 2 => {
+            let run = if layout == 1 { 4096 } else { 8192 };
+            for ch in order.chunks_mut(run) {
+                ch.sort_by(by_x);
+            }
+        }
+        3 => Rng::new(seed ^ 0x5FF1E).shuffle(&mut order),
+        4 => order.sort_by(by_x),
+        5 | 6 => {
+            if let Some(keys) = curve_key(&coords) {
+                if layout == 5 {
+                    order.sort_by(|a, b| keys[*a].cmp(&keys[*b]).then(a.cmp(b)));
+                } else {
+                    for ch in order.chunks_mut(4096) {
+                        ch.sort_by(|a, b| keys[*a].cmp(&keys[*b]).then(a.cmp(b)));
+                    }
+                }
+            }
+        }
+        _ => {}
+    }
+    let mut out = Vec::with_capacity(coords.len());
+    for p in order {
+        out.extend_from_slice(&coords[p * dim..(p + 1) * dim]);
+    }
+    out
+}
+
+/// Integer weights of the generated stream (sum below 2^53 by construction).
+///   0 ones  1 small ints  2 one dominant  3 many zeros  4 near 2^53 in total  5 ramp per block of 4096
+fn gen_int_weights(n: usize, wmode: usize, seed: u64) -> Vec<f64> {
+    let mut rng = Rng::new(seed ^ 0x3E16);
+    let mut w: Vec<u64> = (0..n)
+        .map(|i| match wmode {
+            0 => 1,
+            1 => 1 + rng.below(10),
+            2 => 1 + rng.below(3),
+            3 => {
+                if rng.chance(2, 3) {
+                    0
+                } else {
+                    1 + rng.below(5)
+                }
+            }
+            4 => ((1u64 << 53) - 1) / n.max(1) as u64 - rng.below(1000.min(((1u64 << 53) - 1) / n.max(1) as u64)),
+            _ => 1 + (i as u64 / 4096) % 7,
+        })
+        .collect();
+    if wmode == 2 && n > 0 {
+        let k = rng.usize(n);
+        w[k] = 100_000;
+    }
+    w.into_iter().map(|x| x as f64).collect()
+}
+
+fn run_hilg(ctx: &mut Ctx, t: &mut Toks) -> Option<()> {
+    let dim = t.usize()?;
+    let pool = t.usize()?;
+    let order = t.u64()?;
+    let parts = t.usize()?;
+    let n = t.usize()?;
+    let family = t.usize()?;
+    let layout = t.usize()?;
+    let wmode = t.usize()?;
+    let seed = t.u64()?;
+    let reuse = t.usize()?;
+    if !(dim == 2 || dim == 3) || pool == 0 || pool > 64 || order > 64 || n > (1 << 22) || family > 2 || !t.at_end() {
+        return None;
+    }
+    let base = format!("hilg {} {} {} {} {} {} {} {} {} {}", dim, pool, order, parts, n, family, layout, wmode, seed, reuse);
+    let coords = gen_family(dim, n, family, seed);
+    let coords = apply_layout(dim, coords, layout, seed, |c| {
+        // curve order from the index hook (input construction only)
+        let c = c.to_vec();
+        match catch(move || {
+            with_pool(1, || {
+                if dim == 2 {
+                    coupe::verif::hilbert::indices_2d(&pts2(&c), order as usize)
+                } else {
+                    coupe::verif::hilbert::indices_3d(&pts3(&c), order as usize)
+                }
+            })
+        }) {
+            Caught::Ok(idx) => Some(idx.into_iter().map(|i| i.to_be_bytes().to_vec()).collect()),
+            _ => None,
+        }
+    });
+    let ws = gen_int_weights(n, wmode, seed);
+    if reuse > 0 {
+        ctx.count("reuse");
+        ctx.count(&format!("reuse:hil:{}", reuse_name(reuse)));
+    }
+    ctx.count(&format!("gen:hil:family{}:layout{}", family, layout));
+    hil_exec(ctx, base, dim, pool, order, parts, n, coords, ws, reuse, true);
+    Some(())
+}
+
+fn run_zcg(ctx: &mut Ctx, t: &mut Toks) -> Option<()> {
+    let dim = t.usize()?;
+    let pool = t.usize()?;
+    let order = t.u64()?;
+    let parts = t.usize()?;
+    let n = t.usize()?;
+    let family = t.usize()?;
+    let layout = t.usize()?;
+    let seed = t.u64()?;
+    let reuse = t.usize()?;
+    if !(dim == 2 || dim == 3) || pool == 0 || pool > 64 || order > 64 || n > (1 << 22) || family > 2 || !t.at_end() {
+        return None;
+    }
+    let base = format!("zcg {} {} {} {} {} {} {} {} {}", dim, pool, order, parts, n, family, layout, seed, reuse);
+    let coords = gen_family(dim, n, family, seed);
+    let coords = apply_layout(dim, coords, layout, seed, |c| {
+        let c = c.to_vec();
+        match catch(move || {
+            with_pool(1, || {
+                if dim == 2 {
+                    coupe::verif::z_curve::codes::<2>(&pts2(&c), order as u32)
+                } else {
+                    coupe::verif::z_curve::codes::<3>(&pts3(&c), order as u32)
+                }
+            })
+        }) {
+            Caught::Ok(codes) => Some(codes),
+            _ => None,
+        }
+    });
+    if reuse > 0 {
+        ctx.count("reuse");
+        ctx.count(&format!("reuse:zc:{}", reuse_name(reuse)));
+    }
+    ctx.count(&format!("gen:zc:family{}:layout{}", family, layout));
+    zc_exec(ctx, base, dim, pool, order, parts, n, coords, reuse);
     Some(())
 }
 
@@ -480,6 +772,8 @@ pub fn run_op(ctx: &mut Ctx, op: &str) {
         Some("wq") => run_wq(ctx, &mut t),
         Some("hil") => run_hil(ctx, &mut t),
         Some("zc") => run_zc(ctx, &mut t),
+        Some("hilg") => run_hilg(ctx, &mut t),
+        Some("zcg") => run_zcg(ctx, &mut t),
         _ => None,
     };
     if r.is_none() {
@@ -844,7 +1138,13 @@ pub fn generate(ctx: &mut Ctx) {
     for _ in 0..ctx.budget(2000, 25000) {
         gen_zc(ctx);
     }
-    // (4) malformed stream
+    // (4) LARGE stream: sizes just above / far above the usual block thresholds (not multiples of
+    // powers of two), block-aligned and pre-sorted layouts, pools 1/2/3/16, object and buffer reuse
+    large_stream(ctx);
+    // (5) CORNER stream: part counts around 64/128/256, thousands of parts, 2 and 3 points,
+    // chunk-size corners, weights near 2^53
+    corner_stream(ctx);
+    // (6) malformed stream
     for _ in 0..ctx.budget(20, 200) {
         let n = 1 + ctx.rng.usize(5);
         let (c, _) = gen_points(ctx, n, 2, true);
@@ -860,4 +1160,197 @@ pub fn generate(ctx: &mut Ctx) {
         ctx.count("malformed");
     }
     let _ = hex(0.0);
+}
+
+const LARGE_POOLS: [usize; 4] = [1, 2, 3, 16];
+
+fn size_class(n: usize) -> &'static str {
+    match n {
+        0..=5000 => "le-5000",
+        5001..=12000 => "8k",
+        12001..=30000 => "16k-20k",
+        30001..=100000 => "65k-70k",
+        _ => "131k-140k",
+    }
+}
+
+/// family / layout / pool of one generated case: float points only on a 1-thread pool
+fn gen_descr(ctx: &mut Ctx) -> (usize, usize, usize, u64, usize) {
+    let pool = *ctx.rng.pick(&LARGE_POOLS);
+    let family = if pool == 1 && ctx.rng.chance(1, 3) { 2 } else { ctx.rng.usize(2) };
+    let layout = ctx.rng.usize(7);
+    let seed = ctx.rng.below(1 << 40);
+    let reuse = [0, 0, 1, 2][ctx.rng.usize(4)];
+    (pool, family, layout, seed, reuse)
+}
+
+fn large_hil(ctx: &mut Ctx, n: usize, parts: usize) {
+    let (pool, family, layout, seed, reuse) = gen_descr(ctx);
+    let dim = if ctx.rng.chance(2, 3) { 2 } else { 3 };
+    let max_order = if dim == 2 { 32 } else { 21 };
+    let order = [max_order, 8, 12, 1 + ctx.rng.usize(max_order)][ctx.rng.usize(4)];
+    let wmode = ctx.rng.usize(6);
+    ctx.count(&format!("large:hil:{}", size_class(n)));
+    ctx.count(&format!("large:pool{}", pool));
+    run_op(ctx, &format!("hilg {} {} {} {} {} {} {} {} {} {}", dim, pool, order, parts, n, family, layout, wmode, seed, reuse));
+}
+
+/// ZCurve's reordering recomputes the region of ALL points at every node of the quadtree
+/// (`points.par_iter()` in `z_curve_partition_recurse`), i.e. it costs (number of nodes) x n:
+/// the order is capped so that one case stays within a few seconds.
+fn zc_order_cap(quick: bool, n: usize, dim: usize) -> usize {
+    let cap2 = match (quick, n) {
+        (true, 0..=9000) => 9,
+        (true, 9001..=30000) => 6,
+        (true, _) => 5,
+        (false, 0..=9000) => 12,
+        (false, 9001..=30000) => 10,
+        (false, 30001..=100000) => 7,
+        (false, _) => 5,
+    };
+    if dim == 2 {
+        cap2
+    } else {
+        (cap2 * 2) / 3
+    }
+}
+
+fn large_zc(ctx: &mut Ctx, n: usize, parts: usize) {
+    let (pool, family, layout, seed, reuse) = gen_descr(ctx);
+    let dim = if ctx.rng.chance(2, 3) { 2 } else { 3 };
+    let cap = zc_order_cap(ctx.quick(), n, dim);
+    let order = if ctx.rng.chance(1, 2) { cap } else { 1 + ctx.rng.usize(cap) };
+    ctx.count(&format!("large:zc:{}", size_class(n)));
+    ctx.count(&format!("large:pool{}", pool));
+    run_op(ctx, &format!("zcg {} {} {} {} {} {} {} {} {}", dim, pool, order, parts, n, family, layout, seed, reuse));
+}
+
+fn large_stream(ctx: &mut Ctx) {
+    let hil_parts = |n: usize, k: usize, extra: usize| match k % 6 {
+        0 => 2,
+        1 => 64,
+        2 => 257,
+        3 => n / 3,
+        4 => n,
+        _ => n + 1 + extra,
+    };
+    if ctx.quick() {
+        // every listed size with each of the six part counts
+        for &n in &[8193usize, 20001, 70001] {
+            for k in 0..6 {
+                let extra = ctx.rng.usize(5000);
+                large_hil(ctx, n, hil_parts(n, k, extra));
+            }
+        }
+        for &n in &[16385usize + 37, 65537 + 11] {
+            for _ in 0..2 {
+                let k = ctx.rng.usize(6);
+                let extra = ctx.rng.usize(5000);
+                large_hil(ctx, n, hil_parts(n, k, extra));
+            }
+        }
+        // ZCurve: the sizes with part counts around 64 / 256 and more parts than points
+        let zp = [63usize, 64, 65, 256, 257];
+        for &n in &[70001usize, 20001, 8193] {
+            let k1 = *ctx.rng.pick(&zp);
+            large_zc(ctx, n, k1);
+            let extra = ctx.rng.usize(3000);
+            let k2 = [n + 1 + extra, n / 3, n][ctx.rng.usize(3)];
+            large_zc(ctx, n, k2);
+        }
+        // chunk-size corners at large n: n % parts = 1, parts - 1, 0
+        ctx.count("corner:chunk-rem-1");
+        large_zc(ctx, 64 * 312 + 1, 64);
+        ctx.count("corner:chunk-rem-parts-1");
+        large_zc(ctx, 257 * 31 + 256, 257);
+        ctx.count("corner:chunk-rem-0");
+        large_zc(ctx, 65 * 1077, 65);
+    } else {
+        for &n in &[4097usize, 8193, 16385 + 37, 20001, 65537 + 11, 70001, 131077, 140003] {
+            let reps = if n > 100000 { 1 } else { 2 };
+            for _ in 0..reps {
+                for k in 0..6 {
+                    let extra = ctx.rng.usize(5000);
+                    large_hil(ctx, n, hil_parts(n, k, extra));
+                }
+            }
+        }
+        for &n in &[8193usize, 20001, 70001, 131077, 140003] {
+            for &k in &[63usize, 64, 65, 256, 257] {
+                large_zc(ctx, n, k);
+            }
+            let extra = ctx.rng.usize(3000);
+            large_zc(ctx, n, n + 1 + extra);
+            large_zc(ctx, n, n / 3);
+            large_zc(ctx, n, n);
+        }
+        for &k in &[63usize, 64, 65, 256, 257] {
+            for (name, r) in [("0", 0usize), ("1", 1), ("parts-1", k - 1)] {
+                let q = [8193usize, 20001, 70001][ctx.rng.usize(3)] / k;
+                ctx.count(&format!("corner:chunk-rem-{}", name));
+                large_zc(ctx, k * q + r, k);
+            }
+        }
+    }
+    ctx.notes.push(
+        "large stream: HilbertCurve at n = 8193, 16422, 20001, 65548, 70001 (thorough also 4097, 131077, 140003) with part counts \
+         2, 64, 257, n/3, n, > n; ZCurve at the same sizes up to 70001 (thorough 140003) with part counts 63/64/65/256/257, n/3, n, > n \
+         and n % parts in {0, 1, parts-1}; its reordering costs (quadtree nodes) x n, so the order is capped (quick: 9 / 6 / 5 for \
+         n <= 9000 / 30000 / 70001; thorough: 12 / 10 / 7 / 5); pools of 1, 2, 3, 16 threads; layouts: row-by-row grids with rows of \
+         4096 / 8192 nodes, ascending x in runs of 4096 / 8192, globally sorted, sorted along the curve (whole / in runs of 4096), \
+         shuffled; full oracle AND exact comparison with the model on every one of them"
+            .to_string(),
+    );
+}
+
+fn corner_stream(ctx: &mut Ctx) {
+    let reps = ctx.budget(2, 10);
+    for _ in 0..reps {
+        // part counts around the powers of two, thousands of parts
+        for &k in &[63usize, 64, 65, 128, 255, 256, 257, 2000] {
+            let parts = if k == 2000 { 2000 + ctx.rng.usize(3000) } else { k };
+            let n = match ctx.rng.usize(3) {
+                0 => parts + 1 + ctx.rng.usize(50),
+                1 => 300 + ctx.rng.usize(2000),
+                _ => 2000 + ctx.rng.usize(3000),
+            };
+            ctx.count(&format!("corner:parts-{}", if k == 2000 { "thousands".to_string() } else { k.to_string() }));
+            let (pool, family, layout, seed, reuse) = gen_descr(ctx);
+            let wmode = ctx.rng.usize(6);
+            let order = 1 + ctx.rng.usize(32);
+            run_op(ctx, &format!("hilg 2 {} {} {} {} {} {} {} {} {}", pool, order, parts, n, family, layout, wmode, seed, reuse));
+            let (pool, family, layout, seed, reuse) = gen_descr(ctx);
+            let order = 1 + ctx.rng.usize(10);
+            let dim = 2 + ctx.rng.usize(2);
+            run_op(ctx, &format!("zcg {} {} {} {} {} {} {} {} {}", dim, pool, order, parts, n, family, layout, seed, reuse));
+        }
+        // exactly two and three points
+        for n in [2usize, 3] {
+            for &parts in &[1usize, 2, 3, 4, 64] {
+                ctx.count(&format!("corner:n-{}", n));
+                let (pool, family, layout, seed, reuse) = gen_descr(ctx);
+                let wmode = ctx.rng.usize(6);
+                run_op(ctx, &format!("hilg 2 {} 7 {} {} {} {} {} {} {}", pool, parts, n, family, layout, wmode, seed, reuse));
+                run_op(ctx, &format!("zcg 2 {} 5 {} {} {} {} {} {}", pool, parts, n, family, layout, seed, reuse));
+            }
+        }
+        // chunk-size corners: n % parts = 0, 1, parts - 1
+        for &k in &[2usize, 3, 63, 64, 65, 256, 257] {
+            for (name, r) in [("0", 0usize), ("1", 1), ("parts-1", k - 1)] {
+                let q = 1 + ctx.rng.usize(20);
+                ctx.count(&format!("corner:chunk-rem-{}", name));
+                let (pool, family, layout, seed, reuse) = gen_descr(ctx);
+                let order = 4 + ctx.rng.usize(7);
+                run_op(ctx, &format!("zcg 2 {} {} {} {} {} {} {} {}", pool, order, k, k * q + r, family, layout, seed, reuse));
+            }
+        }
+        // weights with a total just below 2^53 (every partial sum is still exact)
+        for _ in 0..3 {
+            ctx.count("corner:weights-near-2^53");
+            let (pool, family, layout, seed, reuse) = gen_descr(ctx);
+            let n = 2 + ctx.rng.usize(3000);
+            let parts = 1 + ctx.rng.usize(n.min(300));
+            run_op(ctx, &format!("hilg 2 {} 16 {} {} {} {} 4 {} {}", pool, parts, n, family, layout, seed, reuse));
+        }
+    }
 }
